@@ -359,6 +359,14 @@ func (o *objectValidator) validatePropertiesSchema(val map[string]interface{}, r
 			continue
 		}
 
+		if pSchema.Ref.String() != "" {
+			// the default of a referenced property is declared by the target of the reference:
+			// resolve it on the scratch copy, like the validator of a present member would
+			if err := spec.ExpandSchema(pSchema, o.Root, nil); err != nil {
+				continue
+			}
+		}
+
 		if pSchema.Default != nil {
 			// if a default value is defined, creates the property from defaults
 			// NOTE: JSON schema does not enforce default values to be valid against schema. Swagger does.
